@@ -501,6 +501,26 @@ func (a *devAlt) struct61(body []byte) []byte {
 		})
 	case "hmac-val":
 		pl[2] = flipHashVal(pl[2])
+	case "hmac-alg-sha", "hmac-alg-other", "hmac-alg-unknown":
+		// the header HMAC tagged with an identifier the device has no HMAC for: a plain hash id, the other HMAC size, an
+		// unknown number (the value stays: whatever the device does, it cannot have verified it)
+		var h protocol.Hash
+		if err := cbor.Unmarshal(pl[2], &h); err != nil {
+			panic("device.go: hmac field")
+		}
+		switch a.change {
+		case "hmac-alg-sha":
+			h.Algorithm = protocol.Sha256Hash
+		case "hmac-alg-other":
+			if h.Algorithm == protocol.HmacSha256Hash {
+				h.Algorithm = protocol.HmacSha384Hash
+			} else {
+				h.Algorithm = protocol.HmacSha256Hash
+			}
+		default:
+			h.Algorithm = 99
+		}
+		pl[2] = mustEnc(h)
 	case "num+1", "num-1", "num0":
 		var n uint8
 		_ = cbor.Unmarshal(pl[1], &n)
@@ -1043,7 +1063,7 @@ func registerDeviceKinds(c *core.Ctx) {
 
 // ---- the runner ----
 
-var dev61Changes = []string{"none", "nonce", "hellohash-val", "hellohash-alg", "ovh-guid", "ovh-devinfo", "ovh-mfgkey", "hmac-val", "num+1", "num-1", "num0",
+var dev61Changes = []string{"none", "nonce", "hellohash-val", "hellohash-alg", "ovh-guid", "ovh-devinfo", "ovh-mfgkey", "hmac-val", "hmac-alg-sha", "hmac-alg-other", "hmac-alg-unknown", "num+1", "num-1", "num0",
 	"kexa", "kexa-fresh", "siginfo", "maxmsg", "no256", "no257", "alg", "payload-null", "untagged"}
 
 var devTo1dAlts = []string{"to1d:payload", "to1d:hash", "to1d:sig-flip", "to1d:sig-short", "to1d:resigned-stranger", "to1d:payload-resigned-stranger",
